@@ -3,8 +3,8 @@ C05 — the metamorphic pair "uniform translation" (`Model/UsedShift.lean`, sect
 harness): what the comparator's `ok` means (soundness), that it accepts exactly-translated trees
 (completeness), and that the clauses of the property itself do not depend on where the page area is
 (`nodeVerdict_shift`: the checker of used values gives the same verdict on a box and on the translated box in
-the translated context) — so a rendering that changes under translation is a defect of the layout, not an
-artefact of the statement.  Core Lean only.
+the translated context; `usedOk_shift`: the whole checker, stacking and containment included) — so a rendering
+that changes under translation is a defect of the layout, not an artefact of the statement.  Core Lean only.
 -/
 import WpModel.Props.C05Check
 import WpModel.Model.UsedShift
@@ -195,6 +195,161 @@ theorem nodes_all_shift (eps dx dy : Rat) (c : Ctx) (t : UTree) :
   congr 1
   funext p
   simp only [Function.comp, nodeOk, nodeVerdict_shift]
+
+/-! ### the whole checker is translation invariant (clauses (a)–(g)) -/
+
+theorem shiftTree_box (dx dy : Rat) (t : UTree) : (shiftTree dx dy t).box = shiftBox dx dy t.box := by
+  cases t; rfl
+
+theorem shiftTree_kids (dx dy : Rat) (t : UTree) : (shiftTree dx dy t).kids = shiftList dx dy t.kids := by
+  cases t; rfl
+
+mutual
+theorem nonNegMargins_shift (dx dy : Rat) : ∀ t : UTree, nonNegMargins (shiftTree dx dy t) = nonNegMargins t
+  | .mk b kids => by
+    simp only [shiftTree, nonNegMargins]
+    rw [nonNegMarginsList_shift dx dy kids]
+    rfl
+theorem nonNegMarginsList_shift (dx dy : Rat) : ∀ ts : List UTree,
+    nonNegMarginsList (shiftList dx dy ts) = nonNegMarginsList ts
+  | [] => rfl
+  | t :: ts => by
+    simp only [shiftList, nonNegMarginsList]
+    rw [nonNegMargins_shift dx dy t, nonNegMarginsList_shift dx dy ts]
+end
+
+theorem allOof_shift (dx dy : Rat) : ∀ ts : List UTree,
+    (shiftList dx dy ts).all (fun k => k.box.kind == .oof) = ts.all (fun k => k.box.kind == .oof)
+  | [] => rfl
+  | t :: ts => by
+    simp only [shiftList, List.all_cons]
+    rw [allOof_shift dx dy ts, shiftTree_box]
+    rfl
+
+theorem isEmpty_shift (dx dy : Rat) (t : UTree) : isEmpty (shiftTree dx dy t) = isEmpty t := by
+  cases t with
+  | mk b kids =>
+    simp only [shiftTree, isEmpty]
+    rw [allOof_shift]
+    rfl
+
+private theorem decide_le_add (p q d : Rat) : decide (p + d ≤ q + d) = decide (p ≤ q) := by
+  have : (p + d ≤ q + d) ↔ (p ≤ q) := by constructor <;> intro h <;> grind
+  simp only [this]
+
+/-- (g) the stacking walk is translation covariant: same verdict, final position moved by `dy`. -/
+theorem stackKids_shift (eps dx dy : Rat) : ∀ (kids : List UTree) (pos : Option Rat),
+    stackKids eps (pos.map (· + dy)) (shiftList dx dy kids) =
+      ((stackKids eps pos kids).1, (stackKids eps pos kids).2.map (· + dy))
+  | [], pos => rfl
+  | t :: ts, pos => by
+    simp only [shiftList, stackKids, shiftTree_box]
+    have hk : (shiftBox dx dy t.box).kind = t.box.kind := rfl
+    rw [hk]
+    cases hkind : t.box.kind with
+    | oof => simp only; exact stackKids_shift eps dx dy ts pos
+    | other => simp only; exact stackKids_shift eps dx dy ts none
+    | flow =>
+      simp only [nonNegMargins_shift, isEmpty_shift]
+      split
+      · have hbt : (shiftBox dx dy t.box).borderTop = t.box.borderTop + dy := by
+          simp only [UBox.borderTop, shiftBox]; grind
+        have hbb : (shiftBox dx dy t.box).borderBottom = t.box.borderBottom + dy := by
+          simp only [UBox.borderBottom, shiftBox]; grind
+        have hpos' : (if isEmpty t = true then pos.map (· + dy) else some (shiftBox dx dy t.box).borderBottom) =
+            (if isEmpty t = true then pos else some t.box.borderBottom).map (· + dy) := by
+          split <;> simp [hbb]
+        rw [hpos', stackKids_shift eps dx dy ts _]
+        cases pos with
+        | none => rfl
+        | some p =>
+          simp only [Option.map_some, hbt]
+          have : t.box.borderTop + dy + eps = (t.box.borderTop + eps) + dy := by grind
+          rw [this, decide_le_add]
+      · exact stackKids_shift eps dx dy ts none
+    | line =>
+      simp only [nonNegMargins_shift, isEmpty_shift]
+      split
+      · have hbt : (shiftBox dx dy t.box).borderTop = t.box.borderTop + dy := by
+          simp only [UBox.borderTop, shiftBox]; grind
+        have hbb : (shiftBox dx dy t.box).borderBottom = t.box.borderBottom + dy := by
+          simp only [UBox.borderBottom, shiftBox]; grind
+        have hpos' : (if isEmpty t = true then pos.map (· + dy) else some (shiftBox dx dy t.box).borderBottom) =
+            (if isEmpty t = true then pos else some t.box.borderBottom).map (· + dy) := by
+          split <;> simp [hbb]
+        rw [hpos', stackKids_shift eps dx dy ts _]
+        cases pos with
+        | none => rfl
+        | some p =>
+          simp only [Option.map_some, hbt]
+          have : t.box.borderTop + dy + eps = (t.box.borderTop + eps) + dy := by grind
+          rw [this, decide_le_add]
+      · exact stackKids_shift eps dx dy ts none
+
+/-- (g) stacking and containment of the children of one box: same verdict after translation. -/
+theorem kidsVerdict_shift (eps dx dy : Rat) (t : UTree) :
+    kidsVerdict eps (shiftTree dx dy t) = kidsVerdict eps t := by
+  cases t with
+  | mk b kids =>
+    simp only [shiftTree, kidsVerdict]
+    have hk : (shiftBox dx dy b).kind = b.kind := rfl
+    have hct : (shiftBox dx dy b).contentTop = b.contentTop + dy := by
+      simp only [UBox.contentTop, shiftBox]; grind
+    have hs := stackKids_shift eps dx dy kids (some b.contentTop)
+    simp only [Option.map_some] at hs
+    rw [hk, hct, hs]
+    have h1 : (shiftBox dx dy b).hAuto = b.hAuto := rfl
+    have h2 : (shiftBox dx dy b).whole = b.whole := rfl
+    have h3 : (shiftBox dx dy b).maxH = b.maxH := rfl
+    have h4 : (shiftBox dx dy b).h = b.h := rfl
+    rw [h1, h2, h3, h4]
+    cases (stackKids eps (some b.contentTop) kids).2 with
+    | none => rfl
+    | some p =>
+      simp only [Option.map_some]
+      have : b.contentTop + dy + b.h + eps = (b.contentTop + b.h + eps) + dy := by grind
+      rw [this, decide_le_add]
+
+mutual
+theorem subtrees_shift (dx dy : Rat) : ∀ t : UTree,
+    subtrees (shiftTree dx dy t) = (subtrees t).map (shiftTree dx dy)
+  | .mk b kids => by
+    simp only [shiftTree, subtrees, List.map_cons, List.cons.injEq, true_and]
+    exact subtreesList_shift dx dy kids
+theorem subtreesList_shift (dx dy : Rat) : ∀ ts : List UTree,
+    subtreesList (shiftList dx dy ts) = (subtreesList ts).map (shiftTree dx dy)
+  | [] => rfl
+  | t :: ts => by
+    simp only [shiftList, subtreesList, List.map_append]
+    rw [subtrees_shift dx dy t, subtreesList_shift dx dy ts]
+end
+
+/-- **The property statement is translation invariant**: the verified checker of used values accepts a tree
+in a page area iff it accepts the translated tree in the translated page area — all clauses, (a)–(g). -/
+theorem usedOk_shift (eps dx dy : Rat) (c : Ctx) (t : UTree) :
+    usedOk eps (shiftCtx dx c) (shiftTree dx dy t) = usedOk eps c t := by
+  unfold usedOk
+  rw [nodes_all_shift, subtrees_shift, List.all_map]
+  congr 2
+  funext s
+  simp only [Function.comp, kidsOk, kidsVerdict_shift]
+
+/-! ### the metamorphic pair "neutral wrapper div" uses the comparator with the translation (0, 0) -/
+
+mutual
+theorem shiftTree_zero : ∀ t : UTree, shiftTree 0 0 t = t
+  | .mk b kids => by
+    simp only [shiftTree, shiftList_zero kids, shiftBox, Rat.add_zero]
+theorem shiftList_zero : ∀ ts : List UTree, shiftList 0 0 ts = ts
+  | [] => rfl
+  | t :: ts => by simp only [shiftList, shiftTree_zero t, shiftList_zero ts]
+end
+
+/-- A subtree that did not change at all is accepted with the translation `(0, 0)`; and what the comparator
+accepts then is, box by box, the same geometry (`treeMoved_spec` / `boxMoved_exact` at `dx = dy = 0`). -/
+theorem treeMoved_refl (eps : Rat) (he : 0 ≤ eps) (t : UTree) : treeMoved eps 0 0 t t = true := by
+  have := treeMoved_shift eps 0 0 he t
+  rwa [shiftTree_zero] at this
 
 /-! ### non-vacuity -/
 
